@@ -13,6 +13,7 @@ CONSTANTS
   PhaseOn = {1, 3}
   AllowCtrlC = TRUE
   MaxNFE = 1
+  AllowInvalid = FALSE
 INVARIANT ProtocolOK
 INVARIANT ClosedAtEnd
 INVARIANT NoProblemLost
